@@ -216,6 +216,33 @@ func genTransfer(s *src, o *out) {
 		die("sendPrefixHash / recvPrefixHash: the guard that skips the resume exchange changed")
 	}
 	o.raw("Definition tr_resume_skipped_for_empty_target : bool := true.\n")
+	// below this protocol sendPrefixHash announces the source size (a SIZE that is not echoed) and
+	// recvPrefixHash reads it; both ends must switch at the same version
+	ns, nr := protoOf("trzszTransfer.sendPrefixHash", "if t.transferConfig.Protocol < "), protoOf("trzszTransfer.recvPrefixHash", "if t.transferConfig.Protocol < ")
+	if ns != nr {
+		die("sendPrefixHash and recvPrefixHash switch the SIZE announcement at different protocol versions (%d, %d)", ns, nr)
+	}
+	if strings.Count(sp, "t.transferConfig.Protocol < ") != 1 || strings.Count(rp, "t.transferConfig.Protocol < ") != 1 ||
+		!strings.Contains(sp, `t.sendInteger("SIZE", srcFile.Size)`) || !strings.Contains(rp, `t.recvInteger("SIZE", false, t.getNewTimeout())`) {
+		die("sendPrefixHash / recvPrefixHash: the SIZE announcement below protocol %d changed shape", ns)
+	}
+	o.defN("tr_proto_resume_nosize", ns)
+	// the receiver's check of the announced rest of a resumed file against the source size minus its own
+	// offset (recvPrefixHash remembers it, recvFiles compares after recvFileSize): present or not
+	rf := s.text(s.fn("trzszTransfer.recvFiles").Body)
+	setRest := strings.Contains(rp, "t.resumeRestSize = size - matchStep")
+	chkRest := strings.Contains(rf, "if t.resumeRestSize >= 0 && size != t.resumeRestSize {") && strings.Contains(rf, "t.resumeRestSize = -1")
+	if setRest != chkRest {
+		die("resume rest-size check: recvPrefixHash and recvFiles disagree about it (set=%v, checked=%v)", setRest, chkRest)
+	}
+	if chkRest {
+		// it must come after recvFileSize (the size has been echoed by then) and before the data
+		i, j, k := strings.Index(rf, "t.recvFileSize("), strings.Index(rf, "if t.resumeRestSize >= 0"), strings.Index(rf, "t.recvFileDataV2(")
+		if !(i >= 0 && i < j && j < k) {
+			die("resume rest-size check: not between recvFileSize and recvFileDataV2")
+		}
+	}
+	o.raw("Definition tr_resume_rest_check : bool := %s.\n", b2s(chkRest))
 
 	// call order
 	o.raw("Definition tr_send_files_calls : list (list N) := %s.\n",
